@@ -5,7 +5,7 @@ from vf.engine import Sub, require, bitstring_module
 from vf.common import cls_st, mk, attempt, is_raised, CLASSES, cls_of
 
 RULE = ("encode_table / decoder_total are exhaustive enumerations (every integer in a window around 0 for each code; every bit string up "
-        "to a length bound as decoder input); the others are generated (values out to 2^200 biased to 2^k-2..2^k+1; sequences of 1..30 mixed "
+        "to a length bound as decoder input); encode_in_history builds small values repeatedly through every route into objects that are then edited in place (non-trivial = an encode after an edit); the others are generated (values out to 2^200 biased to 2^k-2..2^k+1; sequences of 1..30 mixed "
         "codes with optional junk prefix and truncated tail). Non-trivial = |v| >= 2, or a decoder input of >= 3 bits that is not exactly one "
         "codeword, or a sequence of >= 2 codes; distinct = SHA-1 of the case.")
 ASSUMPTIONS = ["reference encoders/decoders are written from the H.264 / Dirac tables in doc/exp-golomb.rst and self-tested against those tables",
@@ -158,6 +158,82 @@ def run_encode(case):
         require(o2.bin == exp, f'{kind} via route {route} differs', v=v, got=o2.bin, expected=exp)
         require(getattr(o, kind) == v, f'{kind} does not decode back', v=v, got=getattr(o, kind))
     return {'nt': nt}
+
+
+# ------------------------------------------------------------------------------------------- encoders in a history
+
+EDITS = ['invert', 'append', 'clear', 'set1', 'reverse', 'iadd', 'none']
+
+
+@st.composite
+def history_case(draw, tier):
+    """small values encoded again and again through every route into mutable objects that are then edited in place"""
+    lo = draw(st.sampled_from([0, 0, 5, 30, 254, 1022]))
+    steps = []
+    for _ in range(draw(st.integers(2, 12))):
+        kind = draw(st.sampled_from(KINDS))
+        v = lo + draw(st.integers(0, 3))
+        if kind in ('se', 'sie') and draw(st.booleans()):
+            v = -v
+        steps.append([kind, v, draw(st.sampled_from(DIRECT_ROUTES)), draw(st.sampled_from(['BitArray', 'BitStream', 'BitArray', 'Bits', 'ConstBitStream'])),
+                      draw(st.sampled_from(EDITS))])
+    return {'steps': steps}
+
+
+DIRECT_ROUTES = ['kw', 'token', 'pack', 'pack_kw', 'dtype_build', 'setattr_direct', 'fromstring', 'join', 'array_item_data', 'append_token', 'kw']
+
+
+def run_history(case):
+    bs = bitstring_module()
+    keep = []
+    edited = False
+    nt = False
+    for kind, v, route, clsname, edit in case['steps']:
+        c = cls_of(clsname)
+        exp = enc(kind, v)
+        if route == 'kw':
+            o = c(**{kind: v})
+        elif route == 'token':
+            o = c(f'{kind}={v}')
+        elif route == 'fromstring':
+            o = c.fromstring(f'{kind}={v}')
+        elif route == 'pack':
+            o = bs.pack(kind, v)
+        elif route == 'pack_kw':
+            o = bs.pack(f'{kind}=x', x=v)
+        elif route == 'dtype_build':
+            o = bs.Dtype(kind).build(v)
+        elif route == 'setattr_direct':
+            o = (bs.BitStream if clsname in ('BitStream', 'ConstBitStream') else bs.BitArray)('0b101')
+            setattr(o, kind, v)
+        elif route == 'join':
+            o = c().join([f'{kind}={v}'])
+        elif route == 'append_token':
+            o = bs.BitArray()
+            o.append(f'{kind}={v}')
+        else:
+            o = bs.BitArray()
+            o += bs.Bits(**{kind: v})
+        require(o.bin == exp, f'{kind} codeword for {v} differs from the table definition after earlier results were edited in place' if edited else
+                f'{kind} codeword for {v} differs from the table definition', route=route, cls=clsname, got=o.bin, expected=exp, steps=case['steps'][:12])
+        require(getattr(o, kind) == v, 'codeword does not decode back to the value', kind=kind, v=v, got=getattr(o, kind))
+        nt = nt or edited
+        if isinstance(o, bs.BitArray) and edit != 'none':
+            if edit == 'invert':
+                o.invert()
+            elif edit == 'append':
+                o.append('0b1')
+            elif edit == 'clear':
+                o.clear()
+            elif edit == 'set1':
+                o.set(1)
+            elif edit == 'reverse':
+                o.reverse()
+            elif edit == 'iadd':
+                o += '0b0110'
+            edited = True
+        keep.append(o)
+    return {'nt': nt, 'labels': sorted({s[2] for s in case['steps']})}
 
 
 # ------------------------------------------------------------------------------------------- big values
@@ -382,6 +458,7 @@ def run_neg(case):
 SUBCHECKS = [
     Sub('C10.encode_table', run_encode, enum=enum_window,
         enum_exhaustive_note='every integer in [-2048, 2048] (quick) / [-40000, 40000] (thorough) x ue/se/uie/sie (non-negative for ue/uie), keyword route plus one rotating other route'),
+    Sub('C10.encode_in_history', run_history, strategy=history_case, examples={'quick': 3000, 'thorough': 40000}),
     Sub('C10.roundtrip_big', run_big, strategy=big_case, examples={'quick': 4000, 'thorough': 60000}),
     Sub('C10.decoder_total', run_decoder, enum=enum_strings,
         enum_exhaustive_note='every bit string of length <= 11 (quick) / <= 16 (thorough) as decoder input for all four codes, via property, peek, read, readlist, unpack'),
